@@ -49,7 +49,7 @@ def c03(tier):
     q = tier == "quick"
     sh = lambda: reader.run_rshare("C03", tier, [("MC_C03.tla", "MC_C03_quick.cfg")], 60 if q else 1500, nconn=6, race=True)
     if q:
-        return reader.run_reader_check("C03", tier, [("MC_C03.tla", "MC_C03_quick.cfg")], mult=1, max_progs=3000,
+        return reader.run_reader_check("C03", tier, [("MC_C03.tla", "MC_C03_quick.cfg")], mult=1, max_progs=3252,
                                        assumptions=BASE_ASSUME + CONC_ASSUME[1:2], extra=sh)
     return reader.run_reader_check("C03", tier, [("MC_C03.tla", "MC_C03_thorough.cfg")], mult=2, assumptions=BASE_ASSUME + CONC_ASSUME[1:2], extra=sh)
 
